@@ -1,7 +1,7 @@
 SPECIFICATION Spec
 CONSTANTS
   AmbiguityFirst = FALSE
-  Kinds = {"up", "auth", "idtu", "empty"}
+  Kinds = {"up", "auth", "authn", "idtu"}
   MaxKeys = 3
   Export = TRUE
 INVARIANTS
